@@ -42,7 +42,16 @@ def rule_a(prog, rep):
     REGION = tm.param([a for a in fi.params() if a not in ("self", "cls")][0])  # first parameter, whatever its name
     st = [e for e in I.events if e.kind == "store_sub" and e["base"] == REGION]
     if len(st) != 1:
-        rep.undecided("R-C05-a", where, "differencing store", "%d stores into the region" % len(st))
+        # the routine was rewritten: take the verdict of the shared shape rule (R-C02-e), which also knows the
+        # accumulate-into-a-view form
+        import c02
+        sub2 = core.Report("C02", level="other", rules=c02.RULES, tier="quick")
+        c02.rule_e(prog, sub2)
+        bad = [o for o in sub2.obls if o.status == "VIOLATED"]
+        for o in bad:
+            rep.add("R-C05-a", o.where, "[%s] %s" % (o.rule, o.construct), o.status, o.detail, True, o.witness)
+        if not bad:
+            rep.undecided("R-C05-a", where, "differencing store", "%d stores into the region" % len(st))
         return
     idx = st[0]["index"]
     # scaffold + tuple(<per-dim element> for a, dim in enumerate(self.dims))
